@@ -35,6 +35,11 @@ structure St where
   quiet : Bool := false
   /-- `false` models the mutant that drops `compact.notify_all()` from ingest -/
   ingestNotifies : Bool := true
+  /-- entries on the `ongoing` list that belong to no compaction in flight -/
+  stale : Nat := 0
+  /-- `false` models the mutant whose error path does not call `release_compaction`: the failed
+      compaction's entry stays on the `ongoing` list -/
+  abortReleases : Bool := true
 deriving DecidableEq, Repr
 
 def wakeAll (l : List TState) : List TState := l.map (fun t => if t = .waiting then .running else t)
@@ -44,8 +49,11 @@ def setAt (l : List TState) (i : Nat) (t : TState) : List TState := l.set i t
 /-- `should_stall_ingest()` -/
 def stalled (s : St) : Bool := decide (s.l0 ≥ s.stallAt) || decide (s.l0b ≥ s.stallBytes)
 
-/-- no compaction is in flight (`ongoing` is empty) -/
-def idle (s : St) : Bool := s.compactors.all (· != .inflight)
+/-- the length of the `ongoing` list: the compactions in flight and the entries left behind -/
+def ongoing (s : St) : Nat := (s.compactors.filter (· == .inflight)).length + s.stale
+
+/-- `ongoing` is empty: no compaction is in flight and no entry was left behind -/
+def idle (s : St) : Bool := s.compactors.all (· != .inflight) && s.stale == 0
 
 inductive Ev where
   /-- ingester `i` runs its critical section with a file of `b` bytes -/
@@ -55,6 +63,11 @@ inductive Ev where
   /-- compactor `i` applies its compaction, which takes `c` files and `b` bytes out of level 0
       (`c = 0`: a compaction or move below level 0) -/
   | finish (i c b : Nat)
+  /-- the compaction of compactor `i` fails (`perform_compaction` returns an error): under the
+      mutex the thread releases the compaction (`release_compaction`) and returns; a fresh
+      compaction thread takes its place (the property's premise: a compaction thread is running).
+      Level 0 is unchanged and nobody is notified. -/
+  | abort (i : Nat)
   /-- a spurious wake-up of ingester / compactor `i` (`Condvar::wait` may return unprompted): the
       thread goes back to its check -/
   | spurI (i : Nat)
@@ -80,6 +93,12 @@ def step (s : St) : Ev → St
     | some .inflight =>
       { s with l0 := s.l0 - min c s.l0, l0b := s.l0b - min b s.l0b, quiet := false,
                ingesters := wakeAll s.ingesters, compactors := setAt s.compactors i .running }
+    | _ => s
+  | .abort i =>
+    match s.compactors[i]? with
+    | some .inflight =>
+      { s with compactors := setAt s.compactors i .running,
+               stale := if s.abortReleases then s.stale else s.stale + 1 }
     | _ => s
   | .spurI i =>
     match s.ingesters[i]? with
@@ -108,7 +127,7 @@ def deadlocked (s : St) : Bool :=
 /-- the invariant of `Blue.Stall.Inv`, executable (the trace validator evaluates it after every
     event of a recorded run) -/
 def invB (s : St) : Bool :=
-  s.ingestNotifies && !s.compactors.isEmpty
+  s.ingestNotifies && s.abortReleases && s.stale == 0 && !s.compactors.isEmpty
     && (s.ingesters.all (· != .waiting) || stalled s)
     && (s.compactors.any (· != .waiting) || s.quiet)
     && (!s.quiet || !stalled s)
